@@ -38,6 +38,15 @@ def rowappend_cases(rng, n):
         ks = [rng.choice(kinds[:-1]) for _ in range(w)]
         cols = [[rng.choice(CELLS[k] + ([["N"]] if rng.random() < 0.2 else [])) for _ in range(h)] for k in ks]
         row = [rng.choice(CELLS[k]) for k in ks]
+        if rng.random() < 0.25:
+            # a cell of a WIDER kind than its column (a float under ints - one of them beyond 2**53 -, an int under bools): the
+            # column is promoted, the cells that were there stay the very values they were
+            for q, k in enumerate(ks):
+                if k == "int" and h:
+                    cols[q][rng.randrange(h)] = ["i", 2 ** 53 + 1]
+                    row[q] = ["f", (2.5).hex()]
+                elif k == "bool":
+                    row[q] = ["i", 7]
         if rng.random() < 0.15:
             row = row[:-1] if rng.random() < 0.5 else row + [["i", 0]]          # wrong width: must be refused
         cs.append({"op": "rowappend", "cols": cols, "row": row,
@@ -180,6 +189,13 @@ def _observe_rowappend(case):
         o["len"] = len(out)
         o["rows"] = [[repr(x) for x in r] for r in out]
         o["colcells"] = [[repr(x) for x in c] for c in out.cols()]
+        # the cells of every row read LAZILY: the row's cell iterator is started (one cell taken) while the table iteration stands
+        # on that row and finished only after the table iteration is over
+        pend, none = [], object()
+        for r in out:
+            it = iter(r)
+            pend.append((next(it, none), it))
+        o["rows_lazy"] = [([] if first is none else [repr(first)] + [repr(x) for x in it]) for first, it in pend]
     else:
         o["lens"] = [len(c) if hasattr(c, "__len__") else None for c in out]
     o["src_after"] = [[repr(x) for x in r] for r in t] if cols and cols[0] else []
@@ -270,6 +286,9 @@ def oracle(case, obs):
         return f"rowappend-cells: {what}: the appended row reads back as {obs['rows'][-1]}"
     if [list(r) for r in zip(*obs["colcells"])] != obs["rows"]:
         return f"rowappend-rowview: {what}: rows {obs['rows']} disagree with columns {obs['colcells']}"
+    if obs.get("rows_lazy") is not None and obs["rows_lazy"] != obs["rows"]:
+        return (f"rowappend-rowview: {what}: the cells of the rows, each read through an iterator started on its own row and "
+                f"finished after the table iteration, are {obs['rows_lazy']}; the rows are {obs['rows']}")
     if obs["src_after"] != obs["before"]:
         return f"rowappend-operand: {what}: the left operand changed"
     return None
